@@ -1531,7 +1531,7 @@ static void hist_run(const std::vector<std::string> &plan, Child &c) {
             run_with(p, nullptr, meta, RUN_EXEC, a);
             run_with(p, nullptr, meta, RUN_EXEC, b);
             uint64_t ha = hash_outputs(meta, a), hb = hash_outputs(meta, b);
-            c.event("  subject %zu out=%016llx mxcsr=%#x", si, (unsigned long long)ha, (unsigned)__builtin_ia32_stmxcsr());
+            c.event("  subject %zu out=%016llx mxcsr=%#x", si, (unsigned long long)ha, (unsigned)__builtin_ia32_stmxcsr() & 0xffc0u);   // control bits only: the sticky status flags are inherited noise
             if (ha != hb) c.violation("determinism", "repeated-run-differs", strf("subject %zu: two runs of the same code on the same inputs differ", si));
             c.count("subject.runs");
             // ... and regardless of what was compiled, run or freed before: the same fixed inputs at every point of
